@@ -1,6 +1,7 @@
 import CobaldVerif.Drive.C06
 import CobaldVerif.Drive.C07
 import CobaldVerif.Drive.C08
+import CobaldVerif.Drive.C17
 
 namespace Cobald.Drive
 open Lean
@@ -10,6 +11,7 @@ def dispatch (prop : String) (j : Json) : Except String Json :=
   | "C06" => C06.handle j
   | "C07" => C07.handle j
   | "C08" => C08.handle j
+  | "C17" => C17.handle j
   | p => throw s!"unknown property {p}"
 
 /-- one request line `<prop> <json>` → one canonical JSON line -/
